@@ -257,6 +257,11 @@ def c04(tr, cx):
                 if len(ind_srv) > c: tr.v('C04', 'more_in_service_than_servers', (k, nid, len(ind_srv), c))
             else:
                 if len(ind_srv) > len(servers): tr.v('C04', 'more_in_service_than_servers', (k, nid, len(ind_srv), len(servers)))
+                # customers in service on on-duty servers never exceed what the declared timetable puts on duty at that time
+                sv_ = spec['nodes'][nid - 1]['servers']
+                before, after, isb = timetable(sv_, float(s['t']))
+                on_busy = sum(1 for x in servers if x['busy'] and not x['off'])
+                if on_busy > max(before, after): tr.v('C04', 'more_in_service_than_scheduled_servers', (k, s['t'], nid, on_busy, before, after))
     # a server stays with its customer until that customer leaves (or is pre-empted / interrupted)
     held = {}
     for e in (tr.events if hook_audit(tr, cx) else []):
